@@ -48,7 +48,6 @@ Definition body_ok (b : wbody) (o : fields) : bool :=
   | WNone => match o with [] => true | _ => false end
   | WObj fs => fields_eqb fs o
   | WVal v => fields_eqb [("", v)] o
-  | WWhole _ => negb (mem "" (map fst o)) && negb (Nat.eqb (List.length o) 0)   (* some JSON object: the raw Go value *)
   end.
 
 Definition drop_key (k : string) (fs : fields) : fields :=
